@@ -184,14 +184,23 @@ func (fx *FnExec) resumeAfter(st *State, fr *frame, ins ssa.Instruction) {
 	}
 }
 
+// recordCall notes that the site (a call, go or defer statement of the
+// function under verification) was executed on this path: called()/callres().
+func (fx *FnExec) recordCall(st *State, ins ssa.Instruction, results []Term) {
+	if ins == nil || ins.Parent() != fx.fn {
+		return
+	}
+	m := make(map[string][]Term, len(st.callRes)+1)
+	for k, r := range st.callRes {
+		m[k] = r
+	}
+	m[fx.ord(fx.fn, ins, "")] = results
+	st.callRes = m
+}
+
 func (fx *FnExec) bindResults(st *State, v ssa.Value, sig *types.Signature, results []Term) {
-	if ins, ok := v.(ssa.Instruction); ok && ins.Parent() == fx.fn {
-		m := make(map[string][]Term, len(st.callRes)+1)
-		for k, r := range st.callRes {
-			m[k] = r
-		}
-		m[fx.ord(fx.fn, ins, "")] = results
-		st.callRes = m
+	if ins, ok := v.(ssa.Instruction); ok {
+		fx.recordCall(st, ins, results)
 	}
 	n := sig.Results().Len()
 	switch {
@@ -257,6 +266,7 @@ func (fx *FnExec) doGo(st *State, fr *frame, x *ssa.Go) bool {
 	cc := x.Common()
 	args := fx.evalArgs(st, cc)
 	fx.call(st, fr, cc, args, x, "go", func(st *State, results []Term) {
+		fx.recordCall(st, x, nil)
 		fx.resumeAfter(st, fr, x)
 	})
 	return false
@@ -300,7 +310,10 @@ func (fx *FnExec) doRunDefers(st *State, fr *frame, x *ssa.RunDefers) bool {
 			return
 		}
 		d := mine[i]
-		fx.call(st, fr, d.call, st.dargs[d], d.site, "defer", func(st *State, _ []Term) { run(st, i-1) })
+		fx.call(st, fr, d.call, st.dargs[d], d.site, "defer", func(st *State, rs []Term) {
+			fx.recordCall(st, d.site, rs)
+			run(st, i-1)
+		})
 	}
 	run(st, len(mine)-1)
 	return false
@@ -895,6 +908,7 @@ func (fx *FnExec) applyContract(st *State, fr *frame, tgt callTarget, sig *types
 		fx.iterateCallback(st, fr, tgt, args, site, ordName)
 	}
 	// havoc modifies
+	fx.curSite, fx.curFrame = site, fr
 	vacPre := len(st.pc)
 	old := st.snapshotHeap()
 	{
@@ -918,6 +932,10 @@ func (fx *FnExec) applyContract(st *State, fr *frame, tgt callTarget, sig *types
 	allocBefore := st.alloc
 	na := fx.freshConst("alloc", "Int")
 	st.bumpAlloc(na)
+	for _, pw := range fx.pendingWF {
+		st.assumeWF(pw.t, pw.typ)
+	}
+	fx.pendingWF = nil
 	// what the callee wrote is again a well-formed heap
 	for _, name := range sortedTermKeys(st.heap) {
 		if old[name] == st.heap[name] {
@@ -1033,6 +1051,64 @@ func (fx *FnExec) havocTarget(st *State, env *evalEnv, m Expr) {
 		}
 	case *ECall:
 		switch x.Fn {
+		case "pointees":
+			// every object reachable in one step from the elements/values of x:
+			// summarised as "any object that existed at the caller's entry"
+			st.pointeeLoop = true
+			for _, name := range sortedTermKeys(st.heap) {
+				srt := fx.heapSorts[name]
+				if !realRefHeap(name, srt) {
+					continue
+				}
+				nv := fx.freshConst(name+"@ptees", srt)
+				e := fx.entryAlloc
+				st.assume(fmt.Sprintf("(forall ((q.r Int)) (! (=> (or (> q.r %s) (<= q.r (- (* (+ %s 1) 1024)))) (= (select %s q.r) (select %s q.r))) :pattern ((select %s q.r))))", e, e, nv, st.heap[name], nv))
+				st.heap[name] = nv
+			}
+			return
+		case "pointee":
+			// pointee(p): the object p points to (one level), whatever its type
+			v := env.eval(x.Args[0])
+			if v.lv != nil {
+				nv := fx.freshConst("mod.pointee", v.lv.elemSort)
+				st.storeLV(v.lv, nv)
+				// its type invariant is assumed once the callee's allocations are accounted for
+				fx.pendingWF = append(fx.pendingWF, pendingWF{nv, v.lv.typ})
+				return
+			}
+			idx := v.t
+			if v.sort == "Iface" {
+				idx = "(ival " + v.t + ")"
+			}
+			if fx.curSite != nil && fx.curFrame != nil && fx.inLoopBody(fx.curFrame.fn, fx.curSite) {
+				// the loop summary assumed that only objects which existed at
+				// function entry are written this way
+				e := fx.entryAlloc
+				fx.emit(st, fx.curFrame, "pointee-preexisting", fx.ord(fx.curFrame.fn, fx.curSite, ""), "(and (<= "+idx+" "+e+") (> "+idx+" (- (* (+ "+e+" 1) 1024))))", nil, "")
+				// ... and that they stay within the function's own frame (which is
+				// what lets every heap variable keep its frame across the loop)
+				if fal := fx.topFrameAllowed(st); fal != nil {
+					var alts []string
+					if any := fal["*"]; any != nil {
+						for _, ix := range any.idx {
+							alts = append(alts, "(= "+idx+" "+ix+")")
+						}
+						for _, set := range any.sets {
+							alts = append(alts, strings.ReplaceAll(set, "q.f", idx))
+						}
+					}
+					goal := "false"
+					if len(alts) > 0 {
+						goal = "(or " + strings.Join(alts, " ") + " false)"
+					}
+					fx.emit(st, fx.curFrame, "pointee-in-frame", fx.ord(fx.curFrame.fn, fx.curSite, ""), goal, nil, "")
+				}
+			}
+			st.pointees = append(append([]Term(nil), st.pointees...), idx)
+			for _, name := range sortedTermKeys(st.heap) {
+				st.havocAt(name, idx)
+			}
+			return
 		case "map":
 			mv := env.eval(x.Args[0])
 			ks, vs, _ := env.mapSorts(mv)
